@@ -56,6 +56,8 @@ type c20Source struct {
 	accPK    []byte
 	groups   []*c20GroupSnap
 	trace    []string
+	contactGroups  int
+	blockedContact bool
 }
 
 func c20SortedCIDs(cs []cid.Cid) []string {
@@ -83,6 +85,33 @@ func c20BuildSource(t *testing.T, rt *rapid.T) *c20Source {
 		gpks = append(gpks, res.reply.(*protocoltypes.MultiMemberGroupCreate_Reply).GroupPk)
 	}
 	accPK := w.pools.keys[0]
+	// contacts whose request was received and accepted: their contact groups are opened and written to as well
+	type c20Contact struct {
+		pk, gpk []byte
+	}
+	var contacts []c20Contact
+	for i, n := 0, rapid.IntRange(0, 2).Draw(rt, "contacts"); i < n; i++ {
+		_, pk, _ := crypto.GenerateEd25519Key(crand.Reader)
+		seed := make([]byte, 32)
+		_, _ = crand.Read(seed)
+		if _, err := svc.getAccountGroup().MetadataStore().ContactRequestIncomingReceived(vCtx, &protocoltypes.ShareableContact{Pk: vRawPK(pk), PublicRendezvousSeed: seed}); err != nil {
+			rt.Fatalf("harness: incoming request: %v", err)
+		}
+		if r := w.call("ContactRequestAccept", &protocoltypes.ContactRequestAccept_Request{ContactPk: vRawPK(pk)}); r.errored || r.panicked {
+			rt.Fatalf("harness: accept failed")
+		}
+		r := w.call("GroupInfo", &protocoltypes.GroupInfo_Request{ContactPk: vRawPK(pk)})
+		if r.errored || r.panicked || r.reply == nil {
+			rt.Fatalf("harness: group info of the contact group failed")
+		}
+		cg := r.reply.(*protocoltypes.GroupInfo_Reply).Group.PublicKey
+		if r := w.call("ActivateGroup", &protocoltypes.ActivateGroup_Request{GroupPk: cg}); r.errored || r.panicked {
+			rt.Fatalf("harness: activating the contact group failed")
+		}
+		contacts = append(contacts, c20Contact{vRawPK(pk), cg})
+		gpks = append(gpks, cg)
+		src.trace = append(src.trace, "contact accepted, contact group opened")
+	}
 	targets := append([][]byte{accPK}, gpks...)
 	nops := rapid.IntRange(1, 10).Draw(rt, "ops")
 	for i := 0; i < nops; i++ {
@@ -107,6 +136,21 @@ func c20BuildSource(t *testing.T, rt *rapid.T) *c20Source {
 		res := w.call(name, req)
 		src.trace = append(src.trace, fmt.Sprintf("%s -> err=%v", name, res.errored))
 	}
+	// what became of the contacts afterwards
+	for _, c := range contacts {
+		switch rapid.SampledFrom([]string{"kept", "blocked", "blocked-then-unblocked"}).Draw(rt, "fate") {
+		case "blocked":
+			r := w.call("ContactBlock", &protocoltypes.ContactBlock_Request{ContactPk: c.pk})
+			src.trace = append(src.trace, fmt.Sprintf("ContactBlock -> err=%v", r.errored))
+			src.blockedContact = true
+		case "blocked-then-unblocked":
+			r := w.call("ContactBlock", &protocoltypes.ContactBlock_Request{ContactPk: c.pk})
+			r2 := w.call("ContactUnblock", &protocoltypes.ContactUnblock_Request{ContactPk: c.pk})
+			src.trace = append(src.trace, fmt.Sprintf("ContactBlock -> err=%v, ContactUnblock -> err=%v", r.errored, r2.errored))
+			src.blockedContact = true
+		}
+	}
+	src.contactGroups = len(contacts)
 	// let the service's own background writers (device announcement, secrets) finish: the log lengths stop changing
 	stable, last := 0, -1
 	for i := 0; i < 200 && stable < 5; i++ {
@@ -267,6 +311,7 @@ type c20Target struct {
 	odb  *WeshOrbitDB
 	ss   secretstore.SecretStore
 	mn   mocknet.Mocknet
+	ds   ds.Batching
 }
 
 // withAccount: "" (fresh store) or how the store's account came into existence before the restore
@@ -291,7 +336,7 @@ func c20NewTarget(t *testing.T, withAccount string) *c20Target {
 	if err != nil {
 		t.Fatalf("harness: %v", err)
 	}
-	return &c20Target{node: node, odb: odb, ss: ss, mn: mn}
+	return &c20Target{node: node, odb: odb, ss: ss, mn: mn, ds: dsB}
 }
 
 func (x *c20Target) close() {
@@ -408,9 +453,51 @@ func (x *c20Target) compareMode(t *testing.T, src *c20Source, subset bool) (stri
 	return "", ""
 }
 
+// serviceView starts the protocol service on the restored node: every exported group is known to it, can be activated
+// and is reported as the group that was exported
+func (x *c20Target) serviceView(t *testing.T, src *c20Source) (string, string) {
+	tp, cleanup := NewTestingProtocol(vCtx, t, &TestingOpts{Mocknet: x.mn, SecretStore: x.ss, CoreAPIMock: x.node, OrbitDB: x.odb}, x.ds)
+	defer cleanup()
+	svc := tp.Service.(*service)
+	for _, sn := range src.groups {
+		what := fmt.Sprintf("%v group %x", sn.group.GroupType, sn.group.PublicKey[:6])
+		if _, err := svc.ActivateGroup(vCtx, &protocoltypes.ActivateGroup_Request{GroupPk: sn.group.PublicKey}); err != nil {
+			return "restored/group-not-usable", fmt.Sprintf("the service of the restored node cannot activate the exported %s: %v", what, err)
+		}
+		info, err := svc.GroupInfo(vCtx, &protocoltypes.GroupInfo_Request{GroupPk: sn.group.PublicKey})
+		if err != nil {
+			return "restored/group-not-usable", fmt.Sprintf("GroupInfo of the exported %s on the restored node: %v", what, err)
+		}
+		if !bytes.Equal(info.Group.PublicKey, sn.group.PublicKey) || !bytes.Equal(info.Group.Secret, sn.group.Secret) || info.Group.GroupType != sn.group.GroupType {
+			return "restored/group-differs", fmt.Sprintf("the restored node knows the exported %s with another secret or type", what)
+		}
+		gc, err := svc.GetContextGroupForID(sn.group.PublicKey)
+		if err != nil {
+			return "restored/group-not-usable", fmt.Sprintf("%s: %v", what, err)
+		}
+		var meta, msg []string
+		for _, e := range gc.metadataStore.OpLog().GetEntries().Slice() {
+			meta = append(meta, e.GetHash().String())
+		}
+		for _, e := range gc.messageStore.OpLog().GetEntries().Slice() {
+			msg = append(msg, e.GetHash().String())
+		}
+		have := map[string]bool{}
+		for _, c := range append(meta, msg...) {
+			have[c] = true
+		}
+		for _, c := range append(append([]string(nil), sn.metaCIDs...), sn.msgCIDs...) {
+			if !have[c] {
+				return "restored/entries", fmt.Sprintf("the %s opened by the restored service lacks the exported entry %s", what, c)
+			}
+		}
+	}
+	return "", ""
+}
+
 func TestVerif_C20_RoundTrip(t *testing.T) {
 	acct := vacct.Get("C20")
-	vacct.RapidCheck(t, vacct.N(8, 400), func(rt *rapid.T) {
+	vacct.RapidCheck(t, vacct.N(10, 400), func(rt *rapid.T) {
 		src := c20BuildSource(t, rt)
 		fail := func(id, msg string) {
 			acct.Violation(id, "TestVerif_C20_RoundTrip", map[string]any{"history": src.trace, "groups": len(src.groups), "msg": msg})
@@ -431,6 +518,9 @@ func TestVerif_C20_RoundTrip(t *testing.T) {
 		if id, msg := tgt.compare(t, src); id != "" {
 			fail(id, msg)
 		}
+		if id, msg := tgt.serviceView(t, src); id != "" {
+			fail(id, msg)
+		}
 		entries := 0
 		big := false
 		for _, sn := range src.groups {
@@ -441,7 +531,7 @@ func TestVerif_C20_RoundTrip(t *testing.T) {
 		}
 		acct.Case(len(src.groups) >= 2 && big, fmt.Sprintf("rt|%d|%d|%v", len(src.groups), entries, src.trace), func() any {
 			return map[string]any{"kind": "round-trip", "groups": len(src.groups), "entries": entries, "files": len(src.files), "history": src.trace}
-		}, "round-trip", lbl07(len(src.groups) >= 2, "round-trip/several-groups"))
+		}, "round-trip", lbl07(len(src.groups) >= 2, "round-trip/several-groups"), lbl07(src.contactGroups > 0, "round-trip/contact-group"), lbl07(src.blockedContact, "round-trip/blocked-contact"))
 	})
 }
 
